@@ -1199,3 +1199,93 @@ func init() {
 		},
 	})
 }
+
+func init() {
+	register(&Rule{
+		ID: "C03-c", Template: "T4 permit-cut (the two index builders choose the key hash on the same ground)",
+		Doc: "Each block's index maps the hash of every row's key to that row: in both builders (objects.IndexBlock over decoded rows, objects.IndexBlockFromBytes over block bytes) the degenerate entry — the row's own hash used as its key hash, append(sum, sum...) — is reachable only through the 'table has no primary key' outcome of a test of len(pk). Any further condition on that choice ('the key covers every column anyway') makes the two builders disagree for some key, IndexTable then rejects an honest table with 'different sum', and BlockIndex.Get finds no row.",
+		Min: 2,
+		Run: func(p *Program, r *RuleResult) error {
+			r.Analysed = 2
+			for _, name := range []string{"pkg/objects.IndexBlock", "pkg/objects.IndexBlockFromBytes"} {
+				fn, err := p.SSAFunc(name)
+				if err != nil {
+					return err
+				}
+				// the key-position parameter: the []uint32 one
+				var pk *ssa.Parameter
+				for _, prm := range fn.Params {
+					if sl, ok := prm.Type().Underlying().(*types.Slice); ok {
+						if b, ok := sl.Elem().Underlying().(*types.Basic); ok && b.Kind() == types.Uint32 {
+							pk = prm
+						}
+					}
+				}
+				if pk == nil {
+					return &AnchorError{name + ": key-position parameter"}
+				}
+				// edges on which len(pk) == 0 is known
+				var noKey []edge
+				for _, b := range fn.Blocks {
+					if len(b.Instrs) == 0 {
+						continue
+					}
+					ifi, ok := b.Instrs[len(b.Instrs)-1].(*ssa.If)
+					if !ok {
+						continue
+					}
+					bo, ok := ifi.Cond.(*ssa.BinOp)
+					if !ok {
+						continue
+					}
+					x, y := bo.X, bo.Y
+					op := bo.Op
+					if a := lenArgOf(y); a != nil && stripConv(a) == ssa.Value(pk) {
+						x, y = y, x
+						switch op {
+						case token.LSS:
+							op = token.GTR
+						case token.GTR:
+							op = token.LSS
+						case token.LEQ:
+							op = token.GEQ
+						case token.GEQ:
+							op = token.LEQ
+						}
+					}
+					if a := lenArgOf(x); a == nil || stripConv(a) != ssa.Value(pk) {
+						continue
+					}
+					k, isC := constInt(y)
+					if !isC {
+						continue
+					}
+					switch {
+					case op == token.GTR && k == 0, op == token.NEQ && k == 0, op == token.GEQ && k == 1:
+						noKey = append(noKey, edge{b, 1})
+					case op == token.EQL && k == 0, op == token.LEQ && k == 0, op == token.LSS && k == 1:
+						noKey = append(noKey, edge{b, 0})
+					}
+				}
+				n := 0
+				for _, b := range fn.Blocks {
+					for _, in := range b.Instrs {
+						c, ok := in.(*ssa.Call)
+						if !ok || !isBuiltin(c, "append") || len(c.Call.Args) != 2 || stripConv(c.Call.Args[0]) != stripConv(c.Call.Args[1]) {
+							continue
+						}
+						key := fmt.Sprintf("%s|row-hash-as-key-hash#%d", funcName(fn), n)
+						n++
+						what := "the row's own hash stands in for the key hash only when the table has no primary key"
+						if path, reach := reachAfter(fn, nil, c, mkCut(noKey), nil); reach {
+							r.bad(key, p.Rel(c.Pos()), what, fmtPath("the degenerate entry is reachable on a path that has not found len(pk) to be 0", path))
+						} else {
+							r.ok(key, p.Rel(c.Pos()), what)
+						}
+					}
+				}
+			}
+			return nil
+		},
+	})
+}
